@@ -24,7 +24,10 @@ RULE = ("histories of 1..60 operations (call / finish of a blocked body / drop i
         "explicit decorator objects - all through one object (`memo = alru_cache(maxsize=2)`, `@memo` twice), each through its own "
         "decorator call, or mixed - with equal / neighbouring / unrelated signatures over a common value domain, per-object maxsize in "
         "{1,2,3,4,128} and key_fn, interleaved calls / finishes (/ drops of instances shared by the methods / dirty() per function / "
-        "common clock ticks), for alru_cache, acached_per_instance and alazy_constant.  distinct = different case after dropping meta; non-trivial = the reference cache sees >= 1 hit, "
+        "common clock ticks), for alru_cache, acached_per_instance and alazy_constant.  VALUE KINDS: a body returns either its unique "
+        "integer 100 + call id or, chosen per (function, logical argument tuple) in 40% of the functions (per lazy constant in 25%), a "
+        "payload - None (3x weight), 0, False, '', (), [], (None,), 2**70, 0.0, {} - so that entries whose stored value is None / falsy "
+        "are looked up again (hits expected), evicted and dropped like any other; the body-run log, not the value, says whether a body ran.  distinct = different case after dropping meta; non-trivial = the reference cache sees >= 1 hit, "
         ">= 1 miss and (alru) >= 1 eviction / (per-instance) >= 2 instances or a drop / (lazy) a dirty- or ttl-forced recomputation; "
         "(family) >= 2 functions called, >= 1 hit, >= 1 miss and two functions meet on the same normalised arguments / key (or an "
         "eviction; lazy: a forced recomputation)")
@@ -34,7 +37,10 @@ TRUSTED = ["qcore.caching.LRUCache / get_args_tuple / get_kwargs_defaults (compi
            "the runner records the order and the comparator rejects a run that deviates",
            "CPython weakref callbacks / gc.collect() for the per-instance Drop operation",
            "monitors use inspect.signature(...).bind as the definition of 'normalised arguments'"]
-ASSUMPTIONS = ["families: every decorator object of a case is applied to at least one function; an instance is dropped only when "
+ASSUMPTIONS = ["returned values are the unique integers 100 + call id or one of ten payload kinds (None, 0, False, '', (), [], (None,), 2**70, "
+               "0.0, {}), recognised in the runner by exact type and value; to the model every value is an integer code it never inspects "
+               "(C13_values_opaque*)",
+               "families: every decorator object of a case is applied to at least one function; an instance is dropped only when "
                "none of its calls (in any method) can still be in flight; the reference is one independent cache per decorated function",
                "argument and result values are small integers (no 1 == True == 1.0 key aliasing)",
                "signatures without *args (outside the statement's list of spellings; see docs/C13.md for what a probe shows there)",
@@ -44,7 +50,7 @@ ASSUMPTIONS = ["families: every decorator object of a case is applied to at leas
                "overwritten by that recomputation's completion, on both sides",
                "alazy_constant: the clock is positive and monotone in the monitored stream"]
 
-EXPLANATION = ("28 Coq theorems about Cache.v (see docs/C13.md) + differential run of every generated history through Cache.run_both and "
+EXPLANATION = ("33 Coq theorems about Cache.v (see docs/C13.md) + differential run of every generated history through Cache.run_both and "
                "through alru_cache / acached_per_instance / alazy_constant in both builds (results, cache sizes, body-run log per operation) + "
                "reference-cache monitors.  Families of functions decorated through shared or separate decorator objects are modelled as one "
                "cache machine per decorated function (proved: every function observes its own projection of the history) and monitored "
@@ -53,6 +59,24 @@ EXPLANATION = ("28 Coq theorems about Cache.v (see docs/C13.md) + differential r
 
 LETTERS = "abcdefghijklmnopqrstuvwxyz"
 SELF = 99
+# value kinds a body may return instead of its unique integer 100 + call id (see PAYLOADS in the runner); to the model
+# they are just other integers - it never looks at a value (C13_values_opaque)
+PAYLOAD_NAMES = {9001: "None", 9002: "0", 9003: "False", 9004: "empty-str", 9005: "empty-tuple", 9006: "empty-list",
+                 9007: "tuple-of-None", 9008: "big-int", 9009: "0.0", 9010: "empty-dict"}
+PAYLOAD_CODES = [9001, 9001, 9001, 9002, 9003, 9004, 9005, 9006, 9007, 9008, 9009, 9010]
+
+
+def is_payload(v):
+    return v in PAYLOAD_NAMES
+
+
+def gen_payloads(rng, n):
+    """per logical argument tuple of a function: the payload its body returns, or None = the unique integer.
+    40% of the functions have payload keys at all; in those, each key gets one with probability 1/2."""
+    if rng.random() >= 0.4:
+        return [None] * n
+    return [rng.choice(PAYLOAD_CODES) if rng.random() < 0.5 else None for _ in range(n)]
+
 
 
 def pname(n):
@@ -142,6 +166,7 @@ def bad_spell(rng, sig, logical):
 
 def gen_history(rng, sig, malformed, ninst, with_drop, n):
     space = logical_space(rng, sig, rng.choice([1, 2, 3, 4, 5]))
+    pays = gen_payloads(rng, len(space))
     ops = []
     pending = []       # (id, inst) of blocking calls whose finish is still to be placed
     i = 0
@@ -164,13 +189,14 @@ def gen_history(rng, sig, malformed, ninst, with_drop, n):
                 f["inst"] = rng.randrange(ninst)
             ops.append(f)
             continue
-        lg = rng.choice(space)
+        j = rng.randrange(len(space))
+        lg = space[j]
         if malformed and rng.random() < 0.3:
             args, kw = bad_spell(rng, sig, lg)
         else:
             args, kw = spell(rng, sig, lg)
         bl = rng.random() < 0.25
-        body = ["raise", 500 + i] if rng.random() < 0.15 else ["ret", 100 + i]
+        body = ["raise", 500 + i] if rng.random() < 0.15 else ["ret", 100 + i if pays[j] is None else pays[j]]
         inst = rng.randrange(ninst) if ninst else None
         ops.append(_call(i, args, kw, bl, body, inst))
         if bl and rng.random() < 0.9:
@@ -216,6 +242,7 @@ def gen_case(rng):
         ops = []
         pending = []
         i = 0
+        lpay = rng.choice(PAYLOAD_CODES) if rng.random() < 0.25 else None     # the constant's value kind
         while len(ops) < n:
             q = rng.random()
             if pending and q < 0.2:
@@ -231,7 +258,7 @@ def gen_case(rng):
                 ops.append({"op": "finish", "id": rng.randrange(0, i + 2)})
             else:
                 bl = rng.random() < 0.25
-                body = ["raise", 500 + i] if rng.random() < 0.15 else ["ret", 100 + i]
+                body = ["raise", 500 + i] if rng.random() < 0.15 else ["ret", 100 + i if (lpay is None or rng.random() < 0.2) else lpay]
                 ops.append(_call(i, [], [], bl, body))
                 if bl and rng.random() < 0.9:
                     pending.append(i)
@@ -279,6 +306,7 @@ def gen_family_history(rng, kind, sigs, malformed, ninst, with_drop, n):
                 spaces.append(logical_space(rng, sg, rng.choice([1, 2, 3])))
     else:
         spaces = [logical_space(rng, sg, rng.choice([1, 2, 3, 4])) for sg in sigs]
+    pays = [gen_payloads(rng, len(sp)) for sp in spaces]
     ops = []
     pending = []       # (id, inst, fn)
     maybe_busy = set()
@@ -304,13 +332,14 @@ def gen_family_history(rng, kind, sigs, malformed, ninst, with_drop, n):
             ops.append(f)
             continue
         fn = rng.randrange(nf)
-        lg = rng.choice(spaces[fn])
+        j = rng.randrange(len(spaces[fn]))
+        lg = spaces[fn][j]
         if malformed and rng.random() < 0.3:
             args, kw = bad_spell(rng, sigs[fn], lg)
         else:
             args, kw = spell(rng, sigs[fn], lg)
         bl = rng.random() < 0.2
-        body = ["raise", 500 + i] if rng.random() < 0.12 else ["ret", 100 + i]
+        body = ["raise", 500 + i] if rng.random() < 0.12 else ["ret", 100 + i if pays[fn][j] is None else pays[fn][j]]
         inst = rng.randrange(ninst) if ninst else None
         ops.append(_call(i, args, kw, bl, body, inst, fn))
         if bl:
@@ -373,6 +402,7 @@ def gen_family(rng):
             now0 = rng.choice([now0, 0, -3])
             decos[0]["ttl"] = rng.choice([decos[0]["ttl"], -5])
         ttls = [decos[share[f]]["ttl"] for f in range(nf)]
+        lpays = [rng.choice(PAYLOAD_CODES) if rng.random() < 0.25 else None for _ in range(nf)]
         ops = []
         pending = []
         i = 0
@@ -393,8 +423,8 @@ def gen_family(rng):
                 ops.append({"op": "finish", "id": rng.randrange(0, i + 2), "fn": rng.randrange(nf)})
             else:
                 bl = rng.random() < 0.2
-                body = ["raise", 500 + i] if rng.random() < 0.12 else ["ret", 100 + i]
                 fn = rng.randrange(nf)
+                body = ["raise", 500 + i] if rng.random() < 0.12 else ["ret", 100 + i if (lpays[fn] is None or rng.random() < 0.2) else lpays[fn]]
                 ops.append(_call(i, [], [], bl, body, None, fn))
                 if bl and rng.random() < 0.9:
                     pending.append((i, fn))
@@ -573,6 +603,15 @@ CORPUS_RAW = [
     {"kind": "lazy", "ttl": 0, "now0": 1,
      "ops": [_call(0, [], []), {"op": "tick", "dt": 1000}, _call(1, [], []), {"op": "dirty"}, _call(2, [], []), _call(3, [], [])]},
     {"kind": "alru", "target": "fn", "km": "default", "maxsize": 0, "sig": {"pos": [[0, None]], "kw": [], "varkw": False}, "ops": [_call(0, [1], [])]},
+    # value kinds: a body that returns None (0, False, '', ...) is cached like any other; the second call is a hit
+    {"kind": "alru", "target": "fn", "km": "default", "maxsize": 2, "sig": {"pos": [[0, None], [1, 2]], "kw": [], "varkw": False},
+     "ops": [_call(0, [1], [], body=["ret", 9001]), _call(1, [1], [], body=["ret", 9001]), _call(2, [], [[0, 1]], body=["ret", 9001]),
+             _call(3, [2], [], body=["ret", 9002]), _call(4, [3], []), _call(5, [2], [], body=["ret", 9002]), _call(6, [1], [], body=["ret", 9001])]},
+    {"kind": "inst", "sig": {"pos": [[0, None]], "kw": [[1, 0]], "varkw": False},
+     "ops": [_call(0, [4], [], body=["ret", 9001], inst=0), _call(1, [], [[0, 4]], body=["ret", 9001], inst=0), _call(2, [4], [[1, 0]], body=["ret", 9001], inst=0),
+             _call(3, [4], [], body=["ret", 9001], inst=1), _call(4, [5], [], body=["ret", 9003], inst=0), _call(5, [5], [], body=["ret", 9003], inst=0)]},
+    {"kind": "lazy", "ttl": 0, "now0": 1000,
+     "ops": [_call(0, [], [], body=["ret", 9001]), _call(1, [], [], body=["ret", 9001]), {"op": "dirty"}, _call(2, [], [], body=["ret", 9006]), _call(3, [], [], body=["ret", 9006])]},
     # families.  `memo = alru_cache(maxsize=2)` applied to two functions: coinciding normalised arguments ...
     {"kind": "alru", "target": "fn", "decos": [{"km": "default", "maxsize": 2}],
      "fns": [{"deco": 0, "sig": {"pos": [[0, None], [1, 1]], "kw": [], "varkw": False}}, {"deco": 0, "sig": {"pos": [[0, None], [1, 1]], "kw": [], "varkw": False}}],
@@ -737,7 +776,7 @@ def walk(c, impl_rs=None, body_runs=None):
     tag = kind if kind != "alru" else "alru:%s:%s" % (c["km"] if isinstance(c["km"], str) else "sum", c["target"])
     if c.get("_family"):        # the projection of a family history onto one of its functions (see family_monitors)
         tag += ":" + c["_family"]
-    producers = {}     # value -> (call op) that produced it
+    producers = {}     # value -> ids of the calls whose bodies produced it (one id for the unique integers, several for payloads)
     spell_of = {}      # producer id -> spelling
     # LRU-order clauses are only attributable when the lookups and stores seen so far were keyed the way the reference
     # keys them.  Two bodies that overlap (one pending when the other starts) under *different spellings* are the one
@@ -849,7 +888,7 @@ def walk(c, impl_rs=None, body_runs=None):
             elif p[1][0] == "ret":
                 want = {"RDone": [p[1][1]]}
                 R.put(o.get("inst"), p[0], p[1][1], o["id"])
-                producers[p[1][1]] = o["id"]
+                producers.setdefault(p[1][1], []).append(o["id"])
             else:
                 want = {"RRaise": [p[1][1]]}
             if impl_rs is not None and got != want:
@@ -892,7 +931,14 @@ def walk(c, impl_rs=None, body_runs=None):
                     if gn == "RHit":
                         # a value served from the cache: whose is it?
                         v = got["RHit"][0]
-                        src = producers.get(v)
+                        # its producer: the latest body that returned it - for a payload (a value several bodies return)
+                        # the latest one under this call's own key (and instance), if there is one
+                        cands = producers.get(v, [])
+                        src = cands[-1] if cands else None
+                        for cid in reversed(cands):
+                            if _key_of_id(R, c, cid) == key and (kind != "inst" or spell_of[cid][2] == o.get("inst")):
+                                src = cid
+                                break
                         srckey = _key_of_id(R, c, src) if src is not None else None
                         if src is None:
                             finding("refines-reference", "hit-unknown-value", "returned %s which no completed body produced" % v, k)
@@ -914,7 +960,8 @@ def walk(c, impl_rs=None, body_runs=None):
                             finding("refines-reference", "%s:hit-stale-value" % ("same-spelling" if spell_of.get(e[2]) == spell_of.get(src) else "respelled-args"), "returned %s (from call %d), the reference cache holds the later value %s for key %s" % (v, src, e[1], key), k)
                     elif e is not None:
                         same = spell_of.get(e[2]) == spell_of[o["id"]]
-                        finding("refines-reference", ("%s:body-rerun-on-cached-args" % q("same-spelling")) if same else "respelled-args:body-rerun-on-cached-args",
+                        vq = (":stored-value-" + PAYLOAD_NAMES[e[1]]) if is_payload(e[1]) else ""
+                        finding("refines-reference", (("%s:body-rerun-on-cached-args" % q("same-spelling")) if same else "respelled-args:body-rerun-on-cached-args") + vq,
                                 "call %d %s has the same normalised arguments/key %s as call %d %s whose value %s the reference cache still holds, "
                                 "but it was not served from the cache (%s)" % (o["id"], _show(o), key, e[2], spell_of.get(e[2]), e[1], got), k)
                     elif binds and o["id"] not in ran and gn in ("RRaise", "RMiss", "RDone", "RNone", "RPending"):
@@ -924,7 +971,7 @@ def walk(c, impl_rs=None, body_runs=None):
                     if fs:
                         return fs
                 if want not in ("RPending", "RTypeError") and _res_name(want) == "RMiss":
-                    producers[o["body"][1]] = o["id"]
+                    producers.setdefault(o["body"][1], []).append(o["id"])
         # sizes
         if impl_rs is not None and size is not None:
             if kind == "alru" and size[0] >= 0:
@@ -1001,7 +1048,7 @@ def family_monitors(c, rs, runs):
         return [dict(clause="size-and-lru", site="alru:accepts-nonpositive-maxsize", msg="alru_cache(maxsize<=0) was accepted")]
     tag0 = kind if kind != "alru" else "alru:%s" % c["target"]
     fn_of_call = {o["id"]: o.get("fn") for o in c["ops"] if o["op"] == "call"}
-    producer = {o["body"][1]: o for o in c["ops"] if o["op"] == "call" and o["body"][0] == "ret"}
+    producer = {o["body"][1]: o for o in c["ops"] if o["op"] == "call" and o["body"][0] == "ret" and not is_payload(o["body"][1])}
 
     def res_of(k):
         g = rs[k]
@@ -1174,6 +1221,7 @@ def nontrivial(c):
 def distribution(cases):
     d = {"kind": {}, "km": {}, "maxsize": {}, "oplen": {}, "malformed": 0, "exhaustive_spelling_pairs": 0, "blocking_calls": 0,
          "raising_bodies": 0, "calls": 0, "drops": 0, "finishes": 0, "sig_positional": {}, "sig_defaults": {}, "sig_kwonly": {}, "sig_varkw": 0,
+         "payload_bodies": {}, "cases_with_payload_hit_expected": 0,
          "family": {"cases": 0, "kind": {}, "functions": {}, "decorator_sharing": {}, "same_signature": 0,
                     "coinciding_keys_across_functions": 0, "reference_evictions": 0}}
     for c in cases:
@@ -1209,6 +1257,16 @@ def distribution(cases):
         m = c.get("meta", {})
         d["malformed"] += 1 if m.get("malformed") else 0
         d["exhaustive_spelling_pairs"] += 1 if m.get("exhaustive") else 0
+        seenpay = set()
+        rehit = False
+        for o in c["ops"]:
+            if o["op"] == "call" and o["body"][0] == "ret" and is_payload(o["body"][1]):
+                nm = PAYLOAD_NAMES[o["body"][1]]
+                d["payload_bodies"][nm] = d["payload_bodies"].get(nm, 0) + 1
+                sk = json.dumps([o.get("fn"), o.get("inst"), o["args"], sorted(o["kw"]), o["body"][1]])
+                rehit = rehit or sk in seenpay
+                seenpay.add(sk)
+        d["cases_with_payload_hit_expected"] += 1 if rehit else 0
         for o in c["ops"]:
             if o["op"] == "call":
                 d["calls"] += 1
